@@ -217,7 +217,7 @@ def gen_leaf(rng, txns):
             lat, lon = D(g["lat"]), D(g["lon"])
         else:
             lat, lon = D(rng.randrange(-90, 91)), D(rng.randrange(-180, 181))
-        shape = rng.choice(["around", "edge", "degenerate", "wrap-in", "wrap-out", "miss", "world"])
+        shape = rng.choice(["around", "edge", "degenerate", "wrap-in", "wrap-out", "wrap-edge", "wrap-edge", "miss", "world"])
         d1, d2 = D(rng.choice(["0", "0.001", "1", "5"])), D(rng.choice(["0", "0.001", "1", "5"]))
         s, n = max(D(-90), lat - d1), min(D(90), lat + d2)
         if shape == "around":
@@ -233,6 +233,14 @@ def gen_leaf(rng, txns):
         elif shape == "wrap-out":
             w, e = min(D(180), lon + 1), max(D(-180), lon - 1)
             if not (w > e):
+                w, e = D(170), D(-170)
+        elif shape == "wrap-edge":
+            # a box across the antimeridian (west > east) with the point exactly on its east or west edge: inclusive
+            if rng.random() < 0.5 and lon + 1 <= 180:
+                w, e = lon + 1, lon
+            elif lon - 1 >= -180:
+                w, e = lon, lon - 1
+            else:
                 w, e = D(170), D(-170)
         elif shape == "miss":
             s, n = min(D(90), lat + 1), min(D(90), lat + 2)
@@ -302,7 +310,34 @@ class C05(PropBase):
                 case["pre_all"] = [case["filter"]]
                 case["kind"] += "+history"
             out.append(case)
+        # large journals: the selection is per transaction whatever the size of the journal (a count that is not a multiple
+        # of a power of two, above any plausible batch or block size)
+        for _ in range(2 if tier == "quick" else 12):
+            out.append(self.gen_large(rng))
         return out
+
+    def gen_large(self, rng):
+        n = rng.choice([2051, 2049, 2050, 4099, 1025])
+        cfg = {}
+        txns = []
+        base = common.civil_to_ns(2024, 1, 1, 0, 0, 0, 0, 0)
+        for i in range(n):
+            ns = base + i * 3600 * 10 ** 9
+            secs = ns // 10 ** 9
+            import datetime
+            dt = common.EPOCH + datetime.timedelta(seconds=secs)
+            t = {"ts": {"ns": str(ns), "off": 0, "text": dt.strftime("%Y-%m-%dT%H:%M:%SZ")}, "code": "#%05d" % i,
+                 "desc": rng.choice(["a", "b", "c"]), "uuid": None, "loc": None, "tags": None, "comments": None,
+                 "posts": [{"acct": rng.choice(["e:x", "e:y"]), "amount": str(1 + i % 7), "unit": None, "comment": None}],
+                 "last": {"acct": "a:cash", "comment": None}}
+            txns.append(t)
+        f = rng.choice([{"k": "tt"}, {"k": "desc", "re": "a"}, {"k": "not", "f": {"k": "desc", "re": "b"}},
+                        {"k": "tsBegin", "ns": str(base + (n // 3) * 3600 * 10 ** 9), "off": 0},
+                        {"k": "postAmountGreater", "re": "e:.*", "x": "3"}])
+        layout = {"indent": " ", "sep": "  "}
+        return {"op": "run", "kind": "large:%d" % n, "cfg": cfg, "txns": txns, "layout": layout,
+                "text": common.render_journal(txns, layout), "mfilter": f,
+                "filter": json.dumps({"txnFilter": to_rust(f)}), "want": ["txns", "meta"]}
 
     def rerender(self, case):
         case = super().rerender(case)
